@@ -47,7 +47,7 @@ def texts_for(rng, spec, n):
 def run(tier, seed):
     chk = core.Check("C10", "exploration", tier, seed)
     rng = chk.rng("gen")
-    n = {"quick": 200, "thorough": 2500}[tier]
+    n = {"quick": 300, "thorough": 2500}[tier]
     subj, cases, rejected = lexcheck.make_lex_cases(
         chk, rng, n, lambda r: lexgen.gen_spec(r, nent=(1, 2), match_p=0.25, exotic=0.35, lit_p=0.45, nullable=0.2), tags=TAGS)
     trng = chk.rng("texts")
